@@ -1040,8 +1040,195 @@ class C18(Check):
             if m != 'OK ' + enc(txt):
                 ctx.disagree('CSSCalc.cssText', {'text': t, 'prefs': repr(ps)}, txt, dec(m[3:]) if m.startswith('OK ') else m)
 
+    # -- T18.5: do_css_PropertyValue / do_css_CSSFunction against the model (Model/NumPV.lean) -------------
+    def comp_words(self, v):
+        """a component object in the notation of the `pv` driver request; None if it is not modelled"""
+        n = type(v).__name__
+        if n == 'DimensionValue':
+            if v.type in T2 and len(v.seq) == 1 and isinstance(v.seq[0].value, str):
+                return [T2[v.type] + ':' + enc(v.seq[0].value)]
+            return None
+        if n == 'Value':
+            k = {'IDENT': 'I', 'STRING': 'T', 'UNICODE-RANGE': 'R'}.get(v.type)
+            return None if k is None or not isinstance(v.value, str) else [k + ':' + enc(v.value)]
+        if n == 'URIValue':
+            return ['U:' + enc(v.uri)]
+        if n == 'CSSComment':
+            return ['M:' + enc(v.cssText)]
+        if n == 'CSSCalc':
+            w = self.calc_words(v)
+            return None if w is None else ['calc{'] + w + ['}']
+        if n == 'ColorValue' and v.colorType in ('HASH', 'IDENT'):
+            if len(v.seq) != 1 or not isinstance(v.seq[0].value, str):
+                return None
+            return [('H:' if v.colorType == 'HASH' else 'K:') + enc(v.seq[0].value)]
+        if n == 'CSSFunction' or (n == 'ColorValue' and v.colorType == 'FUNCTION'):
+            items = list(v.seq)
+            if not items or items[0].type != 'FUNCTION' or not isinstance(items[0].value, str):
+                return None
+            words = ['F:' + enc(items[0].value)]
+            for it in items[1:]:
+                if isinstance(it.value, str):
+                    if it.type == 'CHAR' and it.value == ',':
+                        words.append('C')
+                    elif it.type == 'CHAR' and it.value == ')':
+                        words.append(')')
+                    else:
+                        return None
+                else:
+                    w = self.comp_words(it.value)
+                    if w is None:
+                        return None
+                    words += w
+            if words[-1] != ')' or words.count(')') < 1:
+                return None
+            return words
+        return None
+
+    def pv_words(self, pv):
+        words = []
+        for it in pv.seq:
+            if isinstance(it.value, str):
+                if it.type != 'operator':
+                    return None
+                words.append('O:' + enc(it.value))
+            else:
+                w = self.comp_words(it.value)
+                if w is None:
+                    return None
+                words += w
+        return words
+
+    @staticmethod
+    def grammar_shaped(words):
+        """the hypothesis of the T18.5 theorems: separators only between two components — no comma / slash first, last
+        or twice in a row at the top level, no comma first, last or twice in a row inside a function"""
+        prev = 'sep'
+        depth = 0
+        in_calc = False
+        for w in words:
+            if in_calc:                       # a calc() component: its own grammar (`fmtCalc`)
+                if w == '}':
+                    in_calc = False
+                    prev = 'comp'
+                continue
+            if w.startswith('O:') or w == 'C':
+                if prev in ('sep', 'open') or (w == 'C') != (depth > 0):
+                    return False
+                prev = 'sep'
+            elif w.startswith('F:'):
+                depth += 1
+                prev = 'open'
+            elif w == ')':
+                if prev == 'sep' or depth == 0:
+                    return False
+                depth -= 1
+                prev = 'comp'
+            elif w == 'calc{':
+                in_calc = True
+            elif w.startswith('M:'):
+                continue
+            else:
+                prev = 'comp'
+        return prev == 'comp' and depth == 0 and not in_calc
+
+    PV_IDENTS = ['a', 'bold', 'Arial', 'inherit', '-x', 'x-y', '_z', 'sans-serif', 'é', 'a\\ ', 'b\\+c', 'none', 'auto']
+    PV_STRINGS = ['"a b"', "'x'", '""', "'it\\'s'", '"a,b/c"', '"(x)"', "'\\a '", '"*/"', '"a\\\\"', "'q\\22 '"]
+    PV_URLS = ['url(a.png)', 'url( "a b" )', "url('x,y')", 'url()', 'URL(a/b)', 'url("a)b")']
+    PV_FNAMES = ['f', 'foo', 'counter', 'attr', 'rect', 'local', 'format', 'F', 'Fn', 'linear-gradient', '-moz-x', 'rotate']
+
+    def gen_pv_comp(self, rng, depth):
+        r = rng.random()
+        if r < 0.22:
+            sign = rng.choice(['', '', '', '-', '+'])
+            body = rng.choice(['0', '1', '10', '007', '0.5', '.5', '1.50', '0.0', '12.125', '3', '100', '0.000001'])
+            unit = rng.choice(['', '', 'px', 'em', '%', 'PX', 'deg', 's', 'e3', 'pt'])
+            return sign + body + unit
+        if r < 0.36:
+            return rng.choice(self.PV_IDENTS)
+        if r < 0.44:
+            return rng.choice(['red', 'RED', 'teal', 'transparent', '#abc', '#aabbcc', '#AbCdEf', '#aabbc0', '#FFF'])
+        if r < 0.54:
+            return rng.choice(self.PV_STRINGS)
+        if r < 0.60:
+            return rng.choice(self.PV_URLS)
+        if r < 0.66:
+            return rng.choice(['rgb(1,2,3)', 'rgba( 1 , 2 , 3 , .5 )', 'hsl(120, 50%, 50%)', 'RGB(10%,20%,30%)', 'hsla(0,0%,0%,0.50)'])
+        if r < 0.72:
+            return rng.choice(['u+0-7f', 'U+26', 'u+4??'])
+        if r < 0.80 and depth < 2:
+            return self.gen_calc(rng, 1)
+        if depth < 3:
+            n = rng.choice([0, 1, 1, 2, 2, 3, 4])
+            args = ''
+            for i in range(n):
+                if i:
+                    args += rng.choice([' ', '  ', ',', ', ', ' , ', ' ,'])
+                args += self.gen_pv_comp(rng, depth + 1)
+                if rng.random() < 0.05:
+                    args += rng.choice(['/*c*/', ' /* c */ '])
+            return rng.choice(self.PV_FNAMES) + '(' + rng.choice(['', ' ']) + args + rng.choice(['', ' ']) + ')'
+        return rng.choice(self.PV_IDENTS)
+
+    def gen_pv(self, rng):
+        n = rng.choice([1, 2, 2, 3, 3, 4, 5])
+        src = self.gen_pv_comp(rng, 0)
+        for _ in range(n - 1):
+            sp = rng.choice([' ', ' ', ' ', ',', '/'])
+            nxt = self.gen_pv_comp(rng, 0)
+            if sp == ' ':
+                src += rng.choice([' ', '  ', '\t', ' \n ', ' /*c*/ ', '/**/ ']) + nxt
+            else:
+                src += rng.choice(['', ' ', '  ']) + sp + rng.choice(['', ' ', ' /*c*/']) + nxt
+        return src
+
     def pv_correspondence(self, ctx, cu, rng):
-        pass
+        """PropertyValue.cssText vs fmtPV (do_css_PropertyValue, do_css_CSSFunction nested to any depth, Out.append with
+        the `/`+`*` guard) under spacer / listItemSpacer / omitLeadingZero / minimizeColorHash / keepComments records;
+        also checks that every parsed value has the shape the T18.5 theorems quantify over"""
+        from cssutils.css import PropertyValue
+        texts = ['a', '1px/2px , "x" url(a) f(1,2 3) calc(1px + 2px) #aabbcc red rgb(1,2,3)', 'f()', 'f( )', 'f(g(h(1, 2) 3), "s")',
+                 'a/**/b', 'f(/*x*/a)', 'f(a/*x*/b) /*y*/ c', '"a"/"b" , \'c\'', 'a , b', 'a,b', '0.50px -.5em +0.0pt', 'f(0.5,.5)',
+                 'foo(1, -2 3)', 'format("woff") , local(x)', 'rect(1px, 2px, 3px, 4px)', 'a\\  b', 'f(a\\ )', 'f(a\\ ,b)', 'u+0-7f, U+26',
+                 'counter(x , upper-roman) "." counter( y )', 'f("*/" , url( "*" ))', 'x / 1.0 / y', '-x -1 - y' ]
+        texts += [self.gen_pv(rng) for _ in range(ctx.n(2500, 50000))]
+        prefsets = [DEFAULT, MINI, PrefSet(False, True, '', ' '), PrefSet(True, True, ' ', ''), PrefSet(False, False, '  ', ' ')]
+        lines, cases = [], []
+        prefs = cu.ser.prefs
+        for t in texts:
+            pv = PropertyValue(t)
+            if not pv.wellformed:
+                ctx.count('pv:malformed')
+                continue
+            for keep in (True, False):
+                prefs.keepComments = keep
+                try:
+                    if not keep and '/*' not in t:
+                        continue
+                    words = self.pv_words(pv)
+                    if words is None:
+                        ctx.count('pv:not-modelled')
+                        continue
+                    if not self.grammar_shaped(words):
+                        ctx.disagree('PropertyValue.seq: separators only between two components (hypothesis of T18.5)',
+                                     {'text': t}, ' '.join(words), 'component (separator component)*')
+                    for ps in prefsets:
+                        lines.append('pv %s %s' % (ps.proto(), ' '.join(words)))
+                        old = ps.apply(cu)
+                        try:
+                            cases.append((t, ps, keep, pv.cssText))
+                        finally:
+                            ps.restore(cu, old)
+                finally:
+                    prefs.keepComments = True
+        out = ctx.driver(lines) if ctx.model_ok else []
+        for (t, ps, keep, txt), m in zip(cases, out):
+            depth = t.count('(')
+            ctx.case(key=('pv', t, ps.key(), keep), nontrivial=(txt != t), kind='pv:corr:%s' % ('nested' if depth > 1 else 'func' if depth else 'flat'),
+                     sample={'value': t, 'prefs': repr(ps), 'impl': txt})
+            if m != 'OK ' + enc(txt):
+                ctx.disagree('PropertyValue.cssText', {'text': t, 'prefs': repr(ps), 'keepComments': keep}, txt,
+                             dec(m[3:]) if m.startswith('OK ') else m)
 
     def token_signature(self, text):
         """the non-white-space token sequence of a value text, numbers as exact (value, unit) so that only layout and
